@@ -24,8 +24,9 @@ type simpleMidPool struct {
 
 func newMIDPool(min, max int32) midPool {
 	return &simpleMidPool{
-		min: min,
-		max: max,
+		min:       min,
+		max:       max,
+		intervals: []interval{{from: min - 1, to: max}},
 	}
 }
 
@@ -33,10 +34,8 @@ func (m *simpleMidPool) Get() int32 {
 	m.mtx.Lock()
 	defer m.mtx.Unlock()
 	if len(m.intervals) == 0 {
-		m.intervals = []interval{
-			{from: m.min, to: m.max},
-		}
-		return m.min
+		// every identifier is outstanding
+		return -1
 	}
 	if m.intervals[0].from == m.max {
 		return -1
